@@ -818,5 +818,13 @@ func msCutEqual(a, b string) bool {
 		}
 		return s[:i+1] + f[:3] + s[j:]
 	}
-	return cut(a) == cut(b)
+	// "Z" and "+00:00" denote the same offset (the statement asks for the offset
+	// to be preserved, not its spelling); false alarm fixed, see DESIGN section 5
+	zone := func(s string) string {
+		if strings.HasSuffix(s, "Z") {
+			return strings.TrimSuffix(s, "Z") + "+00:00"
+		}
+		return s
+	}
+	return zone(cut(a)) == zone(cut(b))
 }
